@@ -5649,6 +5649,8 @@ class Scen:
                    else [self.series])
         for i in indices:
             self.ambset.sup_constr[i] = tuple(args)
+        self.ambset.model.pupdate = True
+        self.ambset.model.dupdate = True
 
     def exptset(self, *args):
         """
@@ -5683,6 +5685,8 @@ class Scen:
         else:
             indices = self.series
         self.ambset.exp_constr_indices.append(list(indices))
+        self.ambset.model.pupdate = True
+        self.ambset.model.dupdate = True
 
 
 class ScenLoc:
